@@ -1,5 +1,5 @@
 #!/bin/bash
-# usage: tools/process_seed8.sh <ID> [extra check ids] : collect round-8 seed from /tmp/seed8-<ID>/OUT into seeded/<ID>g,
+# usage: tools/process_seed8.sh <ID> [extra check ids] : collect round-8 seed from /tmp/seed8-<ID>/OUT into seeded/<ID>h,
 # confirm it in a fresh worktree, then run the quick checks against a scratch worktree with the patch (VERIF_REPO), so /repo is untouched.
 id="$1"; shift; d=/verif/seeded/${id}h; mkdir -p $d
 cp /tmp/seed8-$id/OUT/patch.diff /tmp/seed8-$id/OUT/demo.py /tmp/seed8-$id/OUT/meta.json $d/ || exit 3
